@@ -53,6 +53,7 @@ cdef class WebSocketDataQueue:
     cdef bint _eof
     cdef object _waiter
     cdef object _exception
+    cdef object _held_reader
     cdef public object _buffer
     cdef object _get_buffer
     cdef object _put_buffer
